@@ -183,6 +183,31 @@ def run(ctx):
     ctx.rule("R06.7", "the startup / shutdown keywords: wherever and however often they occur among the specifications, the function runs at start-up iff "
              "'startup' is listed (or nothing is), at removal iff 'shutdown' is listed, and exactly the other specifications are left for the timer - both subsystems", floor=20)
     keyword_table(ctx, program, "R06.7")
+    ctx.rule("R06.9", "the meaning of 'now' in a specification is fixed for the lifetime of a trigger or wait: inside the wait loops the start-up time is assigned only while it "
+             "is still unset (a re-read on every pass moves once(now + 5s) forward with each unrelated notification)", floor=2)
+    for uid in ("trigger.py::TrigTime.wait_until", "trigger.py::TrigInfo.trigger_watch"):
+        f = program.func(uid)
+        loops = [n for n in body_walk(f) if isinstance(n, ast.While)]
+        n_assign = 0
+        for loop in loops:
+            for a in [x for st in loop.body for x in ast.walk(st) if isinstance(x, ast.Assign)]:
+                if not any(isinstance(t, ast.Name) and t.id == "startup_time" for t in a.targets):
+                    continue
+                n_assign += 1
+                guarded = False
+                p = getattr(a, "_parent", None)
+                while p is not None and p is not loop:
+                    if isinstance(p, ast.If) and norm(p.test) == "startup_time is None" and a in list(ast.walk(ast.Module(body=p.body, type_ignores=[]))):
+                        guarded = True
+                    p = getattr(p, "_parent", None)
+                ctx.check(guarded, "R06.9", uid, f"`{short(a)}` inside the wait loop only fills an unset start-up time",
+                          msg=f"{uid}: `{short(a)}` (line {a.lineno}) re-assigns the start-up time on every pass of the wait loop: `now` in a time specification is re-read whenever a notification "
+                          f"arrives, so once(now + 0.5s) keeps moving away while unrelated state changes come in", key="startup_time re-assigned in loop", node=a, rel="trigger.py")
+        if n_assign == 0:
+            raise AnalysisError(f"{uid}: no assignment of startup_time inside its wait loop")
+    ctx.rule("R06.8", "once(<date> <time>) on concrete calendars: the next instant is the earliest denoted one strictly after now - a month/day without year recurs every "
+             "year (leap day: every leap year), a weekday every week, a time of day every day, a full date once; never an exception", floor=30)
+    once_calendar_grid(ctx, program, "R06.8")
     ctx.rule("R06.6", "date/time/offset parsing: for every combination of the documented date forms, time forms and offsets on a grid of current times (leap day, year end, each weekday relation) "
              "parse_date_time returns the instant the documentation denotes", floor=80)
     parse_grid(ctx, program, "R06.6")
@@ -467,6 +492,70 @@ def _ref_parse(date_tok, time_tok, off_tok, now, day_offset, startup):
         val = float(mm.group(2)) * (-1 if mm.group(1) == "-" else 1) * OFF_UNITS[mm.group(3) or "s"]
         base += dt.timedelta(seconds=val)
     return base, fixed
+
+
+ONCE_SPECS = ["9/1 8:00", "sun 8:00", "2/29 12:00", "8:00", "2024/9/1 8:00", "12/31 23:59", "wed noon"]
+ONCE_NOWS = [dt.datetime(2023, 8, 31, 7, 0), dt.datetime(2023, 9, 1, 7, 59, 59), dt.datetime(2023, 9, 1, 8, 0, 0, 1), dt.datetime(2023, 9, 3, 8, 0, 0, 1), dt.datetime(2023, 9, 3, 7, 0),
+             dt.datetime(2023, 12, 31, 23, 59, 30), dt.datetime(2024, 2, 29, 12, 0, 0, 1), dt.datetime(2023, 3, 1, 0, 0), dt.datetime(2024, 9, 1, 8, 0), dt.datetime(2024, 9, 4, 12, 0, 5)]
+
+
+def _ref_once_next(spec, now):
+    """Documented meaning of once(): date part = yyyy/mm/dd (once), mm/dd (every year), weekday (every week), none (every day)."""
+    parts = spec.split()
+    date_tok, time_tok = (parts[0], parts[1]) if len(parts) == 2 else ("", parts[0])
+    if time_tok == "noon":
+        h, mi = 12, 0
+    else:
+        h, mi = (int(x) for x in time_tok.split(":"))
+    def at(d):
+        return dt.datetime(d.year, d.month, d.day, h, mi)
+    if date_tok.count("/") == 2:
+        y, m, d = (int(x) for x in date_tok.split("/"))
+        t = dt.datetime(y, m, d, h, mi)
+        return t if t > now else None
+    if date_tok.count("/") == 1:
+        m, d = (int(x) for x in date_tok.split("/"))
+        for y in range(now.year, now.year + 9):
+            try:
+                t = dt.datetime(y, m, d, h, mi)
+            except ValueError:
+                continue  # 29 February in a year that has none
+            if t > now:
+                return t
+        return None
+    if date_tok in DOW:
+        for i in range(0, 8):
+            day = now + dt.timedelta(days=i)
+            if day.isoweekday() % 7 == DOW[date_tok] and at(day) > now:
+                return at(day)
+        return None
+    for i in (0, 1):
+        if at(now + dt.timedelta(days=i)) > now:
+            return at(now + dt.timedelta(days=i))
+    return None
+
+
+def once_calendar_grid(ctx, program, rid):
+    from ..absint import FuncV
+    glob = {"parse_time_offset": FuncV(program.func("trigger.py::parse_time_offset"), name="parse_time_offset")}
+    heap = {"TrigTime.dow2int": DictV([(Const(k), Const(v)) for k, v in DOW.items()])}
+    for spec in ONCE_SPECS:
+        for now in ONCE_NOWS:
+            startup = now - dt.timedelta(days=400)
+            pol = FlowPolicy(program, may_raise_all=False, cancel=False, inline={"parse_time_offset", "cls.parse_date_time", "TrigTime.parse_date_time"}, globals_=glob)
+            pol.loop_unroll = 10
+            out = run_flow(program, TTN, pol, args={"cls": ClassV("TrigTime"), "time_spec": ListV((Const(f"once({spec})"),), "list"), "now": Const(now), "startup_time": Const(startup)}, heap=heap)
+            got = set()
+            for k, c, d in exits(out):
+                r = c.env.get("$ret")
+                if k == "return" and isinstance(r, ListV) and len(r.items) == 2:
+                    got.add(r.items[0].v if isinstance(r.items[0], Const) else repr(r.items[0]))
+                else:
+                    got.add(f"{k}: {getattr(c.env.get('$exc'), 'cls', d)}")
+            want = _ref_once_next(spec, now)
+            ctx.check(got == {want}, rid, TTN, f"once({spec}) at {now}", msg=f"timer_trigger_next(['once({spec})'], now={now}) gives {sorted(map(str, got))}, the specification denotes {want}"
+                      + (": the trigger ends after its first firing instead of recurring" if (None in got and want is not None) else ""),
+                      key=f"once {spec} @ {now}", node=program.func(TTN), rel="trigger.py")
 
 
 def parse_grid(ctx, program, rid):
